@@ -180,6 +180,11 @@ def operands(n):
         ('pd-series-n+1', lambda: __import__('pandas').Series([1.0] * (n + 1))), ('pd-series-str-n', lambda: __import__('pandas').Series(['s'] * n)),
         ('pd-index-n', lambda: __import__('pandas').Index([1.5 * i for i in range(n)])), ('pd-column-n', lambda: __import__('pandas').DataFrame({'a': range(n), 'b': 2.0})['a']),
         ('pd-categorical-n', lambda: __import__('pandas').Categorical([float(i % 2) for i in range(n)])),
+        # awkward arrays: strided and reversed views, big-endian, object dtype, masked
+        ('array-n-strided', lambda: np.arange(2 * n, dtype=float)[::2]), ('array-n-reversed', lambda: np.arange(n, dtype=float)[::-1]),
+        ('array-n-bigendian', lambda: np.arange(n).astype('>f8')), ('array-n-object', lambda: np.array([1.5] * n, dtype=object)),
+        ('masked-n', lambda: np.ma.masked_array(np.arange(n, dtype=float), mask=[i % 2 for i in range(n)])),
+        ('array-n-fortran-column', lambda: np.asfortranarray(np.arange(3 * n, dtype=float).reshape(n, 3))[:, 1]),
         ('own-series', lambda: None), ('array-n-readonly', lambda: np.broadcast_to(np.float64(3.0), (n,))),
     ]
 
